@@ -205,6 +205,15 @@ class LocalEnv:
 
     _CONTAINERS = ('std::map<', 'std::set<', 'std::vector<', 'std::unordered_', 'std::list<', 'std::queue<', 'std::deque<', 'std::multimap<', 'std::multiset<')
 
+    def is_alias(self, decl):
+        """is this declared local replaced by its initialiser wherever it is used (role-less, pure, never modified, time-invariant)?"""
+        d = decl.get('loc')
+        if not self.alias or d in self.rename or d in self.no_alias or decl.get('bindings') or not isinstance(decl.get('init'), dict):
+            return False
+        if self.definition({'dloc': d}) is None:
+            return False
+        return self.time_invariant(d, decl['init'])
+
     def time_invariant(self, dloc, init):
         """may the local be replaced by its initialiser at every use?  Not when the initialiser reads state that this function modifies
         (`cc = row[x]; row.erase(x); ... cc ...` is a snapshot, not a name)."""
@@ -472,6 +481,11 @@ def _pure(d):
 def _membership(t):
     """`M.find(k) != M.end()` is `M.count(k)` (and `==` its negation): one canonical spelling of a membership test."""
     if len(t) == 3 and t[0] in ('==', '!='):
+        def it(x):      # const_iterator(iterator) conversions are representation detail
+            while isinstance(x, tuple) and len(x) == 3 and x[0] == 'new' and 'iterator' in str(x[1]):
+                x = x[2]
+            return x
+        t = (t[0], it(t[1]), it(t[2]))
         for x, y in ((t[1], t[2]), (t[2], t[1])):
             if isinstance(x, tuple) and isinstance(y, tuple) and len(x) == 4 and len(y) == 3 and x[0] == y[0] == 'mcall' and x[1].endswith('::find') and \
                     y[1].rsplit('::', 1)[-1] in ('end', 'cend') and x[2] == y[2] and x[1].rsplit('::', 1)[0] == y[1].rsplit('::', 1)[0]:
